@@ -558,6 +558,10 @@ def check_matrix_view(prog: Program, res: Result) -> None:
             return idx(local[e.id])
         return norm(e)
 
+    # the matrix: the array that is returned
+    rets_ = {norm(r_.value) for r_ in ast.walk(fi.node)
+             if isinstance(r_, ast.Return) and isinstance(r_.value, ast.Name)}
+    mname = rets_.pop() if len(rets_) == 1 else "matrix"
     stores = set()
     raw = []
     for st in ast.walk(loops[0]):
@@ -567,9 +571,9 @@ def check_matrix_view(prog: Program, res: Result) -> None:
                 if not isinstance(t, ast.Subscript):
                     continue
                 if isinstance(t.value, ast.Subscript) and norm(
-                        t.value.value) == "matrix":
+                        t.value.value) == mname:
                     stores.add((idx(t.value.slice), idx(t.slice)))
-                elif norm(t.value) == "matrix" and isinstance(
+                elif norm(t.value) == mname and isinstance(
                         t.slice, ast.Tuple) and len(t.slice.elts) == 2:
                     stores.add((idx(t.slice.elts[0]), idx(t.slice.elts[1])))
     want = {(f"{dname}[{a1}]", f"{dname}[{a2}]"),
